@@ -13,11 +13,20 @@ rsync -a --exclude testdata --exclude .git --exclude '*_test.go' /repo/v3 "$tmp/
 if ! patch -s -p1 -d "$tmp" < "$patch"; then echo "STALE $patch (does not apply)"; exit 3; fi
 if ! (cd "$tmp/v3" && GOFLAGS=-mod=readonly go build ./... 2>"$tmp/build.err"); then echo "NOBUILD $patch"; head -5 "$tmp/build.err"; exit 4; fi
 mkdir -p "$tmp/ev"
-for p in "$@"; do
-  ZLV_REPO="$tmp" ZLV_EVDIR="$tmp/ev" ZLV_BCECACHE="$tmp/bce" /verif/bin/zlv -prop "$p" > "$tmp/out.$p" 2>&1; rc=$?
-  case $rc in
-    0) echo "SILENT $p $(basename $patch)";;
-    1) echo "KILLED $p $(basename $patch): $(grep -v '^VIOLATION\|^KNOWN-FINDING\|^note:' "$tmp/out.$p" | head -1 | cut -c1-260)";;
-    *) echo "FAULT($rc) $p $(basename $patch): $(head -3 "$tmp/out.$p" | cut -c1-300)";;
-  esac
-done
+# one process decides all the named properties on the patched copy (zlv -props):
+# the program is loaded and the call graph built once
+plist=$(echo "$@" | tr ' ' ',')
+ZLV_REPO="$tmp" ZLV_EVDIR="$tmp/ev" ZLV_BCECACHE="$tmp/bce" /verif/bin/zlv -props "$plist" > "$tmp/out.all" 2>&1; brc=$?
+if ! grep -q '^BATCH ' "$tmp/out.all"; then
+  for p in "$@"; do echo "FAULT($brc) $p $(basename $patch): $(head -3 "$tmp/out.all" | cut -c1-300)"; done
+  exit 0
+fi
+awk -v patch="$(basename $patch)" '
+/^BATCH / { id=$2; rc=$3; sub("rc=","",rc);
+  if (rc==0) print "SILENT " id " " patch;
+  else if (rc==1) print "KILLED " id " " patch ": " substr(first,1,260);
+  else print "FAULT(" rc ") " id " " patch ": " substr(firstany,1,300);
+  first=""; firstany=""; next }
+{ if (firstany=="") firstany=$0;
+  if (first=="" && $0 !~ /^VIOLATION|^KNOWN-FINDING|^note:/) first=$0 }
+' "$tmp/out.all"
